@@ -136,6 +136,24 @@ def return_configs():
     return out
 
 
+def superseded_configs():
+    """A refresh answers "topic unavailable, no partitions" (topic being re-created); the leaders cached before are
+    superseded: the next call has to look the topic up again before sending."""
+    out = []
+    for assign in [(0, 1, 0, 1), (0, 0, 1, 2)]:
+        cl = cluster_for(assign)
+        for err, api in itertools.product((3, 5), ("produce", "fetch")):
+            keys = [PARTS[0], PARTS[2]]
+            out.append({"cluster": cl, "discovery": False, "timeout_ms": 2000, "warm": [["t", "u"], []],
+                        "warm_connect": True,
+                        "script": [["cluster", "topic_error", "t", err], ["call", "metadata", ["t"]],
+                                   ["cluster", "topic_error", "t", None],
+                                   ["cluster", "move", "t", 0, 2 if assign[0] == 0 else 1],
+                                   ["call", api, payload(api, keys), {"foe": False}]],
+                        "menu": {"reorder": True}})
+    return out
+
+
 def agnostic_configs():
     """Broker-agnostic requests with every subset of brokers unreachable / silent, cold and warmed-up client."""
     out = []
@@ -153,6 +171,20 @@ def agnostic_configs():
                         cfg["warm"] = [["t"], []]
                         cfg["warm_connect"] = True
                     out.append(cfg)
+    # the application retries a failed broker-agnostic call from inside its errback: the retry is a call of its
+    # own and has to walk over the brokers and bootstrap hosts again
+    for nb in (1, 2):
+        cluster = {"brokers": list(range(1, nb + 1)), "topics": {"t": {"0": 1}}}
+        for api, arg in (("coordinator", "g9"), ("metadata", ["t"])):
+            for warm in (False, True):
+                cfg = {"cluster": cluster, "discovery": False, "timeout_ms": 2000,
+                       "script": [["cluster", "down", b_] for b_ in range(1, nb + 1)] +
+                                 [["call", api, arg, {"again_on_failure": 1}]],
+                       "menu": {"reorder": True}, "expect_failure": True}
+                if warm:
+                    cfg["warm"] = [["t"], []]
+                    cfg["warm_connect"] = True
+                out.append(cfg)
     # partially connected client: the request must go to a connected broker first, whatever the shuffle says
     cluster = {"brokers": [1, 2, 3], "topics": {"t": {"0": 1, "1": 2, "2": 3}}}
     for connected in ([1], [2], [3], [1, 2], [2, 3], [1, 3]):
@@ -189,6 +221,7 @@ def run(tier, seed, only=None):
                  ("leaderless", leaderless_configs(), (0, 1, 1)),
                  ("idle-drop-then-call", idle_drop_configs(), (0, 1, 1)),
                  ("broker-leaves-and-returns", return_configs(), (0, 1, 1)),
+                 ("superseded-metadata", superseded_configs(), (0, 1, 1)),
                  ("broker-agnostic", agnostic_configs(), (1, 1, 1))]
     else:
         plans = [("produce-fetch-2dev", configs(tier, ["produce", "fetch"], (1, 2, 3), MENU), (2, 1, 2)),
@@ -199,6 +232,7 @@ def run(tier, seed, only=None):
                  ("leaderless", leaderless_configs(), (1, 1, 2)),
                  ("idle-drop-then-call", idle_drop_configs(), (1, 1, 2)),
                  ("broker-leaves-and-returns", return_configs(), (1, 1, 2)),
+                 ("superseded-metadata", superseded_configs(), (1, 1, 2)),
                  ("broker-agnostic", agnostic_configs(), (2, 1, 2))]
     if only:
         plans = [p for p in plans if p[0] in only]
